@@ -87,6 +87,9 @@ def gen_problem(rng, families=("lin", "quad", "trig", "pole", "incons", "rankdef
         tars = [float(v) for v in f(np.array([rng.choice([-1, 1]) * rng.uniform(2.0, 6.0) for _ in range(n)]))]
     else:
         lim = [(-rng.uniform(1, 4), rng.uniform(1, 4)) if rng.random() < 0.6 else None for _ in range(n)]
+    # limits written as plain integers for EVERY knob (as hand-written limits usually are)
+    if rng.random() < 0.12:
+        lim = [(-rng.randrange(1, 5), rng.randrange(1, 5)) if l is None else (int(math.floor(l[0])), int(math.ceil(l[1]))) for l in lim]
     # special values: a bound that is exactly zero (on the side that keeps the start point inside)
     for i in range(n):
         if lim[i] is not None and rng.random() < 0.3 and x0[i] != 0:
